@@ -470,9 +470,12 @@ class _CallStateCache:
 
     @staticmethod
     def _identity(auth: AuthContext | None) -> str:
+        # Same shape as the token AADs: a leading tag keeps the anonymous key
+        # apart from an authenticated caller whose domain is empty and whose
+        # principal is "anonymous" (without it both spell "\0anonymous").
         if auth is None or not auth.authenticated:
             return "\0anonymous"
-        return f"{auth.domain or ''}\0{auth.principal or ''}"
+        return f"\x01{auth.domain or ''}\0{auth.principal or ''}"
 
     def get(self, call_id: bytes, auth: AuthContext | None, now: float) -> _ResolvedCall | None:
         """Return the cached call for ``call_id``, or ``None`` on miss/expiry."""
